@@ -21,6 +21,9 @@ RULE = ("(e) explicit-state BFS to a fixpoint: IdentityDict vs a list-of-pairs r
 ASSUMPTIONS = ["towers are well-formed: a raw classmethod/staticmethod object is only ever the outermost layer or accessed through its class"]
 
 
+RULE += ' Round 9: 24 hook-independence cases (frame-side vs context-side registrations for one generator-based manager function).'
+
+
 def legs(tier):
     from vlib.runner import Leg
     return [Leg(v, 1) for v in ("3.12", "3.11", "3.10", "3.9")]
